@@ -183,6 +183,8 @@ class Interp:
         procs = ex._processes
         if prev_state is not None:
             prev_state = {k: v for k, v in prev_state.items() if k != "ident"}
+            prev_state["broken_at_return"] = prev._flags.broken is not None
+            prev_state["shutdown_at_return"] = prev._flags.shutdown
         return dict(n=known["n"], id=ex.executor_id, same=(prev is ex), prev=prev_state, old_pids=old_pids, fresh=fresh,
                     started=ex._executor_manager_thread is not None,
                     old=alive_old, max_workers=ex._max_workers,
